@@ -237,10 +237,17 @@ FinalQ(a, e, l, ws) ==
               ELSE a
         \* C07: an ended connection leaves nothing pending on its endpoint
         endedEps == {ep \in DOMAIN ws : e.conn[ep] = "done" /\ ~a.panicked[ep]}
-        hang == {j \in 1..Len(e.out) : e.out[j].ep \in endedEps}
-        a2 == IF endedEps # {}
+        hangAll == {j \in 1..Len(e.out) : e.out[j].ep \in endedEps}
+        \* poll_reset on a stream that had ENDED CLEANLY (both END_STREAMs exchanged, no reset): judged by a rule of its own
+        cleanRst == {j \in hangAll : /\ e.out[j].op = "poll_reset" /\ e.out[j].sid \in DOMAIN ws[e.out[j].ep].st
+                                      /\ LET x == ws[e.out[j].ep].st[e.out[j].sid] IN x.i = "es" /\ x.o = "es" /\ x.rstOut = 0}
+        hang == hangAll \ cleanRst
+        a2a == IF endedEps # {}
               THEN Check(a1, "C07.resolved", hang = {}, l, "", 0, [j \in hang |-> e.out[j]])
               ELSE a1
+        a2 == IF cleanRst # {}
+              THEN Viol(Hit(a2a, "C07.poll_reset_after_clean_end"), "C07.poll_reset_after_clean_end", l, "", 0, [j \in cleanRst |-> e.out[j]])
+              ELSE a2a
         \* C16 (d): bytes sent against reported capacity reach the wire without further grants
         stuck(ep) == {s \in a.probe[ep] : Unsent(a, ws[ep], ep, s) > 0}
         a3 == IF bothAlive /\ unblocked /\ clean /\ (\E ep \in DOMAIN ws : a.probe[ep] # {})
